@@ -252,6 +252,19 @@ inline long long fpOf(long long v) { return v; }
 inline long long fpOf(unsigned v) { return (long long)v; }
 inline long long fpOf(const std::string & s) { Fnv f; f.add(s); return (long long)(f.h & 0x3fffffffffffLL); }
 template <int N, bool C> inline long long fpOf(const TPayloadT<N, C> & p) { return p.observe(); }
+// a payload whose TYPE asks for 16-byte alignment (as long double, __int128 or an SSE vector does): wherever the library stores a copy,
+// the copy must sit at a 16-byte aligned address (UBSan's alignment check reports the misaligned construction, this reports the use)
+template <int N>
+struct alignas(16) TPayloadA16T : TPayloadT<N>
+{
+	explicit TPayloadA16T(int id) : TPayloadT<N>(id) {}
+	TPayloadA16T() {}
+};
+template <int N> inline long long fpOf(const TPayloadA16T<N> & p) {
+	if(reinterpret_cast<uintptr_t>(&p) % 16 != 0) { violation("alignment:over-aligned-argument-stored-at-misaligned-address", "an argument of a type with alignof 16 (id=" + num(p.id()) + ") was handed out at an address that is not a multiple of 16"); return -3000000 - p.id(); }
+	return p.observe();
+}
+typedef TPayloadA16T<24> TPayloadA16;
 template <int N> inline long long fpOf(const TMoveOnlyT<N> & p) { return p.observe(); }
 template <typename T> inline long long fpOf(const std::unique_ptr<T> & p) { return p ? fpOf(*p) : -7; }
 template <typename T> inline long long fpOf(const std::shared_ptr<T> & p) { return p ? fpOf(*p) : -7; }
